@@ -9,7 +9,7 @@ from vlib.runner import Violation, sut
 from vlib.spec import build, renumber, spec_scope
 
 ID = "C08"
-BUDGET = {"quick": 3200, "thorough": 60000}
+BUDGET = {"quick": 3200, "thorough": 240000}
 RULE = ("Generated: unconstrained layer DAGs (G-any: sums over different scopes, overlapping products, "
         "constant layers), smooth&decomposable DAGs (G-sd, several partitions per scope) and pairs built "
         "on equal / different vtrees, and twin pairs (two copies of one circuit with several splits of a scope); each with a drawn permutation of every inner layer's input list "
